@@ -28,6 +28,13 @@ fn main() {
     let out = args[4].clone();
     mcx::e3::SEED.store(args[3].parse().unwrap_or(0), std::sync::atomic::Ordering::Relaxed);
     mcx::session::install_quiet_panic_hook();
+    if let Some(pos) = args.iter().position(|a| a == "--replay") {
+        let txt = std::fs::read_to_string(&args[pos + 1]).expect("read replay file");
+        let j: serde_json::Value = serde_json::from_str(&txt).expect("parse replay file");
+        let path: Vec<String> = j["path"].as_array().map(|a| a.iter().map(|x| x.as_str().unwrap_or("").to_string()).collect()).unwrap_or_default();
+        println!("REPLAY case={:?} (the enumeration is run again; violations of this case are printed)", path);
+        mcx::report::REPLAY_CASE.set(path).ok();
+    }
     let decls = mcx::interp::parse_decls(progs::DECLS_JSON);
     let mut rep = Report { prop: prop.clone(), tier: tier.clone(), ..Default::default() };
     let quick = tier == "quick";
@@ -45,5 +52,8 @@ fn main() {
         }
     }
     rep.check_required();
+    if mcx::report::REPLAY_CASE.get().is_some() {
+        println!("REPLAY done: {} violation(s) raised for this case", mcx::report::REPLAY_HITS.load(std::sync::atomic::Ordering::Relaxed));
+    }
     std::fs::write(&out, serde_json::to_string_pretty(&rep.to_json()).unwrap()).expect("write result");
 }
